@@ -284,6 +284,29 @@ def replay_fermi_rows(model):
     return {"reproduced": bool(dev > 1e-8), "mu_alone": mu_alone, "mu_in_batch": mu_batch, "occupations_alone": f_alone.tolist(), "occupations_in_batch": f_batch.tolist(), "padded_occupations_in_batch": both[4][0, 5:].tolist()}
 
 
+def replay_fermi_root(model):
+    """real Fermi_Q at a high electronic temperature (20 000 K), where the mid-gap starting guess does not give the electron
+    count: the occupations returned must sum to the number of electron pairs (the Newton iteration must walk TOWARDS the root)."""
+    import torch
+    from seqm.seqm_functions.fermi_q import Fermi_Q
+
+    torch.set_default_dtype(torch.float64)
+    g = torch.Generator().manual_seed(5)
+    A = torch.randn(5, 5, generator=g)
+    H = torch.zeros(1, 8, 8)
+    H[0, :5, :5] = (A + A.T) * 1.5 - 4.0 * torch.eye(5)
+    out = Fermi_Q(H, 20000.0, torch.tensor([2]), torch.tensor([1]), torch.tensor([1]), 8.61739e-5, 0)
+    f = out[4][0, :5]
+    dev = abs(float(f.sum()) - 2.0)
+    return {"reproduced": bool(not (dev < 1e-6)), "T_el": 20000.0, "occupations": f.tolist(), "sum_of_occupations": float(f.sum()), "electron_pairs": 2, "chemical_potential": float(out[5][0, 0])}
+
+
+def replay_fermi(model):
+    a = replay_fermi_rows(model)
+    b = replay_fermi_root(model)
+    return {"reproduced": bool(a.get("reproduced") or b.get("reproduced")), "padding_transparency": a, "root_finding": b}
+
+
 def task_fermi_rows(ctx):
     """Fermi_Q (finite electronic temperature occupations, used by the KSA drivers): one Newton step for the chemical potential of
     molecule m is mu + (N_m - sum_phys f_i) / max(tiny, sum_phys beta f_i (1 - f_i)) with f_i = sigmoid(-beta (e_i - mu)) over
@@ -298,7 +321,7 @@ def task_fermi_rows(ctx):
     M = 3
     rec = {}
     rep = []
-    rp = lambda mdl: (rep or rep.append(_quiet(replay_fermi_rows)) or rep)[0]
+    rp = lambda mdl: (rep or rep.append(_quiet(replay_fermi)) or rep)[0]
     T, kB = real("Tel"), real("kB")
 
     def eig_stub(H0, nHeavy, nHydro, Nocc, eig_only=False):
@@ -344,7 +367,9 @@ def task_fermi_rows(ctx):
                 mu_spec = mu0 + (1 - sum(f0, S(0))) / den
             else:
                 mu_spec = mu0
-            ctx.prove_eq("%s.mu[%d]=Newton-step-over-its-own-physical-orbitals" % (tag, m), mu.a[m, 0], mu_spec, pc=p.pc, replay=rp, classify=lambda m_, r: "padding-enters-the-chemical-potential")
+            # (an identity of expressions: stated without the path condition, whose `converged after the update` clause no
+            # sampled valuation satisfies, so that a wrong update is refuted numerically instead of staying undecided)
+            ctx.prove_eq("%s.mu[%d]=Newton-step-over-its-own-physical-orbitals" % (tag, m), mu.a[m, 0], mu_spec, pc=[T > 0, kB > 0], replay=rp, classify=lambda m_, r: "chemical-potential-update")
             foreign = {v.val for v in E.free_vars(mu.a[m, 0].n)} & ({"e_%d_%d" % (1 - m, i) for i in range(M)} | {"e_%d_%d" % (m, i) for i in range(norb[m], M)})
             (ctx.ok if not foreign else ctx.fail)("%s.mu[%d].mentions-only-its-own-physical-levels" % (tag, m), "frame" if not foreign else "mentions %s" % sorted(foreign), **({} if not foreign else {"replay": rp(None)}))
             # occupations: f on the physical orbitals at the chemical potential of the LAST evaluation (mu0 after one update: the
